@@ -20,6 +20,8 @@
           BAD node AND, independently, the first node whose rtt is at least twice the newcomer's (both can fire),
           then insert when there is room;
         * split: refuses when not full; children are filled through `add` in dictionary order.
+    RT.refresh                                                            <->  DHTCommunity.node_maintenance (community.py): which bucket each
+        refresh lookup is generated from, and which buckets are stamped
     RT.getBucket / addFuel,add / removeBad / setNode / closest           <->  RoutingTable.get_bucket / add / remove_bad_nodes /
         (external mutation of Node.failed, Node.rtt) / closest_nodes
         * python mutates bucket objects in place; the model writes the changed bucket back at the key it was found at;
@@ -355,6 +357,13 @@ def closestPrefix (rt : RT) (target : Bits) : Bits :=
 def closest (rt : RT) (target : Bits) (k : Nat) (excl : Option Bits) : List Node :=
   ((walk Gen.closestBreakStrict rt.trie excl (rt.closestPrefix target) k (rt.closestPrefix target).length []).mergeSort
     (closer target)).take k
+
+/-- one round of `DHTCommunity.node_maintenance` (ipv8/dht/community.py) on one routing table: every stale bucket (which
+    keys are stale - `now - last_changed > 15 min` - is scripted by the harness) is looked up with an identifier generated
+    from THAT bucket; `draw k` is the value the random source returned for the bucket at key `k`.  Result: (refreshed key,
+    lookup target) in key order; the code then stamps exactly these buckets. -/
+def refresh (width : Nat) (rt : RT) (stale : Bits → Bool) (draw : Bits → Nat) : List (Bits × Option Bits) :=
+  (rt.trie.keys.filter stale).filterMap (fun k => (rt.trie.get k).map (fun b => (k, b.generateId width (draw k))))
 
 end RT
 
